@@ -168,6 +168,7 @@ class DDLParser(Parser, Dialects):
             "TABLESPACE",
             "CONSTRAINT",
             "EXISTS",
+            "REFERENCES",
         ]
         return (
             t.value not in skip_id_tokens
